@@ -58,6 +58,15 @@ func runC07(c *Ctx) {
 	if b != nil {
 		c.guard("R07-seed", func() { c07Seed(c, b, zmove, zhash) })
 	}
+	// the hash a *forked* board reports: Fork's head node copies the hash of the node it is forked at (every later
+	// hash of the fork is computed from it); a dropped field leaves it zero and all the fork's hashes off by the
+	// hash of the branch position (rule of C08, re-decided here)
+	r.Rule("R07-fork", "Board.Fork initialises every field of the board and of its fresh head node from the original - the node's hash included - so a fork reports the same hashes as the board it was taken from (rule of C08)", 2)
+	c.guard("R07-fork", func() {
+		if g := newGameModel(c, "R07-fork"); g != nil {
+			r.WithAlias("R08-fork", "R07-fork", func() { c08Fork(c, g) })
+		}
+	})
 }
 
 // c07Delta decides incremental == from-scratch hashing per move kind, reporting under the given rule names.
@@ -445,7 +454,12 @@ func c07Keys(c *Ctx, b *boardModel, rule string) bool {
 	}
 	found := map[string]*asg{}
 	var seedOK bool
-	for _, blk := range ctor.Blocks {
+	// the constructor and the helpers of its package it is split into (seeding one table each)
+	var ctorBlocks []*ssa.BasicBlock
+	for _, f := range funcFamily(ctor) {
+		ctorBlocks = append(ctorBlocks, f.Blocks...)
+	}
+	for _, blk := range ctorBlocks {
 		for _, ins := range blk.Instrs {
 			if call, ok := ins.(*ssa.Call); ok {
 				if f := call.Call.StaticCallee(); f != nil && f.String() == "math/rand.NewSource" {
